@@ -171,7 +171,7 @@ fn main() {
     run_lines(|f| {
         let op = f[0];
         match op {
-            "zf" | "zfx" => run_zf(f[1], unhex(f[2])),
+            "zf" | "zfx" | "zrc" => run_zf(f[1], unhex(f[2])),
             "zro" => run_zro(f[1], unhex(f[2])),
             "u8" => with_str(&unhex(f[1]), |s| match s.parse::<u8>() {
                 Ok(v) => format!("ok {v}"),
